@@ -140,6 +140,22 @@ def tryPoll (isErr : Nat → Bool) (ready : List Nat → Nat → Bool) :
       if isErr i then (s1, acc, .err i, polled ++ o.polled)
       else tryPoll isErr ready fuel s1 (acc ++ [i]) (polled ++ o.polled)
 
+/-- `seq_join(w, source).try_collect()` over a source that may itself be `Pending`: as `tryPoll`, but
+the source yields at most `budget` more items during this poll of `TryCollect` (shared by the
+`poll_next` calls of the loop); also returns the budget left. -/
+def tryPollB (isErr : Nat → Bool) (ready : List Nat → Nat → Bool) :
+    Nat → State → Nat → List Nat → List Nat → State × Nat × List Nat × TryOut × List Nat
+  | 0, s, b, acc, polled => (s, b, acc, .pending, polled)
+  | fuel + 1, s, b, acc, polled =>
+    let (s1, o) := step s { budget := b, ready := ready }
+    let b' := b - o.pulled
+    match o.out with
+    | .pending => (s1, b', acc, .pending, polled ++ o.polled)
+    | .finished => (s1, b', acc, .ok acc, polled ++ o.polled)
+    | .item i =>
+      if isErr i then (s1, b', acc, .err i, polled ++ o.polled)
+      else tryPollB isErr ready fuel s1 b' (acc ++ [i]) (polled ++ o.polled)
+
 /-! ### `parallel_join` = `futures::future::try_join_all` (contract of the external crate) -/
 
 /-- state: per task `none` = still pending, `some ()` = done. One poll: every pending future is
